@@ -83,9 +83,19 @@ def check(run):
             q.alias_local(g, 'sim_start_time', pred=lambda v: q.strip_casts(v['init'])['k'] == 'int' and (q.int_value(v['init']) or 0) > 1000000)
         args = [x.arg(1) for x in wsf]
         run.check(len(wsf) == 4 and args[2:] == ['packet_size', 'packet_size'], 'R14', 'record-header', PC + '::log_' + kind, f.loc(), 'the record header is not (secs, usecs, packet_size, packet_size): ' + str(args), '16-byte record header with the length written twice')
-        run.check(bool(wsf) and q.on_all_paths(f, [wsf[0].anchor]), 'R14', 'record-on-every-call', PC + '::log_' + kind, f.loc(),
-                  'a path through log_%s returns without writing a record (e.g. for an empty payload): the closing segment of a connection, which carries no payload, disappears from the capture' % kind,
-                  'a record is written on every path')
+        v4_state = lambda atom: True if (q.strip_casts(atom).get('k') == 'call' and (q.callee_name(q.strip_casts(atom)) or '').split('::')[-1] == 'is_v4') else None     # IPv4 traffic: both endpoints are v4
+        run.check(bool(wsf) and not q.exit_reachable_under(f, None, [wsf[0].anchor], v4_state), 'R14', 'record-on-every-call', PC + '::log_' + kind, f.loc(),
+                  'a path through log_%s returns without writing a record although both endpoints are IPv4 (e.g. for an empty payload): the closing segment of a connection, which carries no payload, disappears from the capture' % kind,
+                  'a record is written on every path for IPv4 endpoints')
+        # a record is written whole or not at all: the only operation of the logger that can throw (address().to_v4() on a
+        # non-IPv4 address) must not be reachable once the record header has been written, unless an is_v4() test dominates it
+        tov4 = [c_ for c_ in f.calls() if (q.callee_name(c_) or '').split('::')[-1] == 'to_v4']
+        okv = all(any(q.render(f, q.strip_casts(a_)).endswith('.is_v4()') for a_, p_ in q.guards_at(f, c_)) or
+                  any(q.render(f, q.strip_casts(a_)).endswith('.is_v4()') and not p_ for n_ in f.all_nodes() if n_['k'] == 'if' and q.leaves_function(f, n_['then']) and q.precedes(f, n_, c_) for a_, p_ in q.conjuncts(n_.get('cond'), True))
+                  for c_ in tov4)
+        run.check(okv or not tov4, 'R14', 'record-whole-or-nothing', PC + '::log_' + kind, f.loc(tov4[0]) if tov4 else f.loc(),
+                  'log_%s converts its endpoints with address().to_v4() without having tested is_v4(): for an IPv6 endpoint the conversion throws AFTER the 16-byte record header has been written - the send fails with an exception and every later (IPv4) record of the capture is unreadable' % kind,
+                  'non-IPv4 endpoints are skipped before anything is written')
         seqf = [x for x in flat if q.callee_name(x.call) != 'sim::aux::write']
         names = [q.callee_name(x.call).split('::')[-1] if (q.callee_name(x.call) or '').startswith('sim::aux::') else 'payload' for x in seqf]
         order_ok = names == ['write_ip_header', 'write_%s_header' % kind, 'payload'] and q.flat_ordered(f, wsf + seqf)
